@@ -113,6 +113,9 @@ Definition breach_trks (t : tower) (uuid : N * N) (d p : N) (s : cstatus) : list
     end
   else db_trks t.
 
+Lemma new_trk_uuid uuid d p s : trk_uuid (new_trk uuid d p s) = uuid.
+Proof. destruct uuid. reflexivity. Qed.
+
 Lemma status_of_new_trk uuid d p s : status_accepted s = true -> status_of_row (new_trk uuid d p s) = s.
 Proof. destruct s; cbn; intros H; try discriminate; reflexivity. Qed.
 
@@ -319,7 +322,8 @@ Section BreachPhase.
     D (a_loc a) /\ trk_uuid k = app_uuid a /\ t_dispute k = a_loc a /\
     decrypt (a_blob a) (a_loc a) = Some (t_penalty k) /\
     status_of_row k = breach_status sc t0 (t_penalty k) /\
-    status_accepted (breach_status sc t0 (t_penalty k)) = true.
+    status_accepted (breach_status sc t0 (t_penalty k)) = true /\
+    find_trk (db_trks t0) (trk_uuid k) = None.
 
   Record Ext (t : tower) : Prop := {
     ext_core : same_core t0 t;
@@ -436,7 +440,9 @@ Section BreachPhase.
       intros k Hik. apply in_app_or in Hik. destruct Hik as [Hik|[<-|[]]]; [apply Hall; exact Hik|].
       exists a. split; [exact Hin|]. unfold made_from.
       cbn [new_trk t_penalty t_dispute]. rewrite <- Hs.
-      repeat split; [exact HD|rewrite Hu; destruct uuid; reflexivity|exact Hd|apply status_of_new_trk; exact Ha|exact Ha].
+      repeat split; [exact HD|rewrite Hu; destruct uuid; reflexivity|exact Hd|apply status_of_new_trk; exact Ha|exact Ha|].
+      rewrite new_trk_uuid.
+      apply find_trk_None_iff. intros Hi0. apply (find_trk_None _ _ Ek). rewrite Hn, map_app. apply in_or_app. left. exact Hi0.
   Qed.
 
   (* the rows with locator d, one after the other *)
@@ -715,7 +721,7 @@ Proof.
     split; [apply Hstay; exact Hn|].
     apply find_trk_None_iff. intros Hi. apply in_map_iff in Hi. destruct Hi as [k [Hu Hk]].
     rewrite Htrks in Hk. apply filter_In in Hk. destruct Hk as [Hk _].
-    destruct (Hmine k Hk Hu) as [_ [_ [_ [Hp [_ Hst]]]]].
+    destruct (Hmine k Hk Hu) as [_ [_ [_ [Hp [_ [Hst _]]]]]].
     assert (Hpk : t_penalty k = p) by congruence. rewrite Hpk in Hst.
     change (breach_status sc (set_w_cache t c) p) with (breach_status sc t p) in Hst. congruence.
 Qed.
@@ -921,9 +927,6 @@ Proof.
   split; [exact Hsame|]. split; [reflexivity|exact Est].
 Qed.
 
-Lemma new_trk_uuid uuid d p s : trk_uuid (new_trk uuid d p s) = uuid.
-Proof. destruct uuid. reflexivity. Qed.
-
 (* store_triggered_appointment for a row that has no tracker yet *)
 Lemma store_triggered_spec sc t1 a d t' :
   find_trk (db_trks t1) (app_uuid a) = None ->
@@ -1101,3 +1104,322 @@ Proof.
       - intros k _. cbn [db_trks set_db_apps]. replace (db_trks t1) with (db_trks t) by apply Hsame. reflexivity. }
     repeat split; symmetry; apply Hsame.
 Qed.
+
+(* the trackers after store_triggered_appointment: those of before, plus at most the one made
+   from the submitted appointment when its penalty was accepted *)
+Lemma store_triggered_trks sc t1 a d t' :
+  w_store_triggered sc t1 a d = Ok tt t' ->
+  forall k, In k (db_trks t') ->
+    In k (db_trks t1) \/
+    exists p, decrypt (a_blob a) d = Some p /\ k = new_trk (app_uuid a) d p (breach_status sc t1 p) /\
+              status_accepted (breach_status sc t1 p) = true.
+Proof.
+  unfold w_store_triggered. destruct (decrypt (a_blob a) d) as [p|].
+  - destruct (w_store_appointment t1 a) as [[] t2|] eqn:Est; cbn [bind]; [|discriminate].
+    apply store_appointment_spec in Est. subst t2.
+    set (t2 := set_db_apps t1 (store_row (db_apps t1) a)).
+    destruct (r_handle_breach sc t2 (app_uuid a) d p) as [s t3|] eqn:Er; cbn [bind]; [|discriminate].
+    apply handle_breach_spec in Er. destruct Er as [Hs [_ [_ [_ Hk]]]].
+    change (breach_status sc t2 p) with (breach_status sc t1 p) in Hs.
+    assert (H3 : forall k, In k (db_trks t3) -> In k (db_trks t1) \/
+                   (k = new_trk (app_uuid a) d p s /\ status_accepted s = true)).
+    { intros k. rewrite Hk. unfold breach_trks. change (db_trks t2) with (db_trks t1).
+      destruct (status_accepted s); [|left; assumption].
+      destruct (find_trk (db_trks t1) (app_uuid a)); [left; assumption|].
+      destruct (find_app (db_apps t2) (app_uuid a)); [|left; assumption].
+      intros Hi. apply in_app_or in Hi. destruct Hi as [Hi|[<-|[]]]; [left; exact Hi|right; split; reflexivity]. }
+    assert (H4 : forall k, In k (db_trks t') -> In k (db_trks t3) -> In k (db_trks t1) \/
+              exists p0, Some p = Some p0 /\ k = new_trk (app_uuid a) d p0 (breach_status sc t1 p0) /\
+                         status_accepted (breach_status sc t1 p0) = true).
+    { intros k _ Hi. destruct (H3 k Hi) as [H|[H1 H2]]; [left; exact H|right]. exists p. rewrite <- Hs. auto. }
+    destruct (status_rejected s).
+    + cbn [gk_delete_appointments]. intros H. injection H as <-. intros k Hi. apply (H4 k Hi).
+      cbn [db_trks db_delete_apps set_db_apps set_db_trks] in Hi. apply filter_In in Hi. apply Hi.
+    + intros H. injection H as <-. intros k Hi. apply (H4 k Hi Hi).
+  - destruct (find_app (db_apps t1) (app_uuid a)).
+    + cbn [gk_delete_appointments]. intros H. injection H as <-. intros k Hi. left.
+      cbn [db_trks db_delete_apps set_db_apps set_db_trks] in Hi. apply filter_In in Hi. apply Hi.
+    + intros H. injection H as <-. intros k Hi. left. exact Hi.
+Qed.
+
+(* ------------------------------------------------------------------------------------------ *)
+(* 5. Responder listener: what it submits, and what it leaves alone *)
+
+Lemma same_but_users_refl t : same_but_users t t.
+Proof. repeat split. Qed.
+Lemma same_but_users_trans a b c : same_but_users a b -> same_but_users b c -> same_but_users a c.
+Proof. unfold same_but_users. intuition congruence. Qed.
+
+Lemma refund_loop_same us : forall t t', refund_loop t us = Ok tt t' -> same_but_users t t'.
+Proof.
+  induction us as [|uuid us IH]; intros t t'; cbn [refund_loop].
+  - intros H. injection H as <-. apply same_but_users_refl.
+  - destruct (find_app (db_apps t) uuid) as [a|]; [|discriminate].
+    destruct (gk_get t (a_user a)) as [ui|]; [|discriminate].
+    destruct (u32_add (u_slots ui) (slots_of (b_len (a_blob a)))) as [s|]; [|discriminate].
+    intros H. apply IH in H. eapply same_but_users_trans; [|exact H]. repeat split.
+Qed.
+
+(* what identifies a tracker: whose it is and which two transactions it is about *)
+Definition trk_id (k : trk) : (N * N) * N * N := (trk_uuid k, t_dispute k, t_penalty k).
+
+Lemma trk_id_inj k0 k :
+  trk_id k0 = trk_id k -> trk_uuid k0 = trk_uuid k /\ t_dispute k0 = t_dispute k /\ t_penalty k0 = t_penalty k.
+Proof. unfold trk_id. intros H. repeat split; congruence. Qed.
+
+(* the trackers the responder may act upon when the block (txs, height h) is connected:
+   confirmed by this block, reorged out earlier, completing, or stale *)
+Definition touchable (txs : list N) (h : N) (R : list (N * N)) (k : trk) : bool :=
+  memN (t_penalty k) txs || mem_uuid (trk_uuid k) R
+  || (t_conf k && N.eqb (h - t_height k) (Z.to_N Consts.IRREVOCABLY_RESOLVED))
+  || (negb (t_conf k) && N.leb (t_height k) (h - Z.to_N Consts.CONFIRMATIONS_BEFORE_RETRY)).
+
+Section Responder.
+  Context (tb : tower) (txs : list N) (h : N).   (* tb: the state the responder's listener starts from *)
+
+  Definition touched (u : N * N) : bool :=
+    existsb (fun k => uuid_eqb (trk_uuid k) u && touchable txs h (reorged tb) k) (db_trks tb).
+
+  (* a justified RPC of the responder: re-broadcast of a tracker's penalty, or re-announcement
+     of the dispute of a tracker whose confirmation was reorged out *)
+  Definition jr (e : rpc_event) : Prop :=
+    r_kind e = K_send /\
+    exists k, In k (db_trks tb) /\
+              (r_tx e = t_penalty k \/ (r_tx e = t_dispute k /\ In (trk_uuid k) (reorged tb))).
+
+  Record RInv (t : tower) : Prop := {
+    ri_ids : incl (map trk_id (db_trks t)) (map trk_id (db_trks tb));
+    ri_reorged : incl (reorged t) (reorged tb);
+    ri_log : exists evs, rpc_log t = evs ++ rpc_log tb /\ forall e, In e evs -> jr e;
+    ri_apps_sub : incl (db_apps t) (db_apps tb);
+    ri_apps_out : forall a, touched (app_uuid a) = false -> In a (db_apps tb) -> In a (db_apps t);
+    ri_trks_out : forall k, touched (trk_uuid k) = false -> (In k (db_trks tb) <-> In k (db_trks t))
+  }.
+
+  Lemma rinv_base : RInv tb.
+  Proof.
+    constructor; try apply incl_refl; auto.
+    - exists []. split; [reflexivity|intros e []].
+    - intros; reflexivity.
+  Qed.
+
+  Lemma rinv_frame t t' :
+    db_apps t = db_apps t' -> db_trks t = db_trks t' -> incl (reorged t') (reorged t) ->
+    rpc_log t = rpc_log t' -> RInv t -> RInv t'.
+  Proof.
+    intros Ha Hk Hr Hl [I1 I2 I3 I4 I5 I6]. constructor; rewrite <- ?Ha, <- ?Hk, <- ?Hl; auto.
+    eapply incl_tran; eassumption.
+  Qed.
+
+  Lemma touched_of k : In k (db_trks tb) -> touchable txs h (reorged tb) k = true -> touched (trk_uuid k) = true.
+  Proof.
+    intros Hi Ht. unfold touched. apply existsb_exists. exists k. split; [exact Hi|].
+    rewrite uuid_eqb_refl, Ht. reflexivity.
+  Qed.
+
+  (* a tracker of the current table has the identity of one of the start *)
+  Lemma rinv_origin t k : RInv t -> In k (db_trks t) -> exists k0, In k0 (db_trks tb) /\ trk_id k0 = trk_id k.
+  Proof.
+    intros RI Hi. apply (in_map trk_id) in Hi. apply (ri_ids t RI) in Hi.
+    apply in_map_iff in Hi. destruct Hi as [k0 [He Hi]]. exists k0. split; assumption.
+  Qed.
+
+  Lemma rinv_send sc t tx s t1 :
+    RInv t ->
+    (exists k, In k (db_trks tb) /\ (tx = t_penalty k \/ (tx = t_dispute k /\ In (trk_uuid k) (reorged tb)))) ->
+    send_transaction sc t tx = (s, t1) -> RInv t1.
+  Proof.
+    intros RI Hj Hs. apply send_transaction_spec in Hs. destruct Hs as [Ht [Hc Hcase]].
+    destruct (aget (car_memo t) tx).
+    - destruct Hcase as [_ ->]. exact RI.
+    - destruct Hcase as [_ [_ Hl]]. destruct RI as [I1 I2 I3 I4 I5 I6].
+      assert (Ha : db_apps t = db_apps t1) by apply Ht.
+      assert (Hk : db_trks t = db_trks t1) by apply Ht.
+      assert (Hr : reorged t = reorged t1) by apply Hc.
+      constructor; rewrite <- ?Ha, <- ?Hk, <- ?Hr; auto.
+      destruct I3 as [evs [He Hall]]. exists (ev_send tx s :: evs). split; [rewrite Hl, He; reflexivity|].
+      intros e [<-|Hi]; [|apply Hall; exact Hi]. split; [reflexivity|exact Hj].
+  Qed.
+
+  Lemma rinv_status t uuid hh c : RInv t -> touched uuid = true -> RInv (set_trk_status t uuid hh c).
+  Proof.
+    intros [I1 I2 I3 I4 I5 I6] HU. unfold set_trk_status.
+    constructor; cbn [db_apps db_trks reorged rpc_log set_db_trks]; auto.
+    - rewrite map_map. intros x Hx. apply I1. apply in_map_iff in Hx. destruct Hx as [k [He Hi]].
+      apply in_map_iff. exists k. split; [|exact Hi]. rewrite <- He.
+      destruct (uuid_eqb (trk_uuid k) uuid); reflexivity.
+    - intros k Hk. rewrite (I6 k Hk). split.
+      + intros Hi. apply in_map_iff. exists k. split; [|exact Hi].
+        destruct (uuid_eqb (trk_uuid k) uuid) eqn:E; [|reflexivity].
+        apply uuid_eqb_eq in E. congruence.
+      + intros Hi. apply in_map_iff in Hi. destruct Hi as [y [He Hi]].
+        destruct (uuid_eqb (trk_uuid y) uuid) eqn:E; [|subst y; exact Hi].
+        apply uuid_eqb_eq in E. subst k. change (touched (trk_uuid y) = false) in Hk. congruence.
+  Qed.
+
+  Lemma rinv_delete t us : RInv t -> (forall u, In u us -> touched u = true) -> RInv (db_delete_apps t us).
+  Proof.
+    intros [I1 I2 I3 I4 I5 I6] HU. unfold db_delete_apps.
+    assert (Hout : forall u, touched u = false -> mem_uuid u us = false).
+    { intros u Hu. destruct (mem_uuid u us) eqn:E; [|reflexivity]. apply mem_uuid_In in E. apply HU in E. congruence. }
+    constructor; cbn [db_apps db_trks reorged rpc_log set_db_trks set_db_apps]; auto.
+    - intros x Hx. apply I1. apply in_map_iff in Hx. destruct Hx as [k [He Hi]]. apply filter_In in Hi.
+      apply in_map_iff. exists k. split; [exact He|apply Hi].
+    - intros a Ha. apply filter_In in Ha. apply I4, Ha.
+    - intros a Ha Hi. apply filter_In. split; [apply I5; assumption|]. rewrite (Hout _ Ha). reflexivity.
+    - intros k Hk. rewrite (I6 k Hk), filter_In, (Hout _ Hk). cbn. tauto.
+  Qed.
+
+  Lemma rinv_gk_delete t us refund t' :
+    RInv t -> (forall u, In u us -> touched u = true) -> gk_delete_appointments t us refund = Ok tt t' -> RInv t'.
+  Proof.
+    intros RI HU. unfold gk_delete_appointments. destruct refund.
+    - destruct (refund_loop t us) as [[] t1|] eqn:Er; cbn [bind]; [|discriminate].
+      apply refund_loop_same in Er. intros H. injection H as <-. apply rinv_delete; [|exact HU].
+      unfold same_but_users in Er.
+      apply (rinv_frame t t1); try (apply Er); [|exact RI].
+      replace (reorged t1) with (reorged t) by apply Er. apply incl_refl.
+    - intros H. injection H as <-. apply rinv_delete; assumption.
+  Qed.
+
+  Lemma check_conf_spec le snap : forall t comp comp' t',
+    (forall k, In k snap -> In k (db_trks tb)) -> RInv t ->
+    check_conf_loop le txs h snap t comp = Ok comp' t' ->
+    RInv t' /\ (forall u, In u comp' -> In u comp \/ touched u = true).
+  Proof.
+    induction snap as [|k snap IH]; intros t comp comp' t' Hsnap RI; cbn [check_conf_loop].
+    - intros H. injection H as <- <-. split; [exact RI|intros u Hu; left; exact Hu].
+    - assert (Hk : In k (db_trks tb)) by (apply Hsnap; left; reflexivity).
+      assert (Hsnap' : forall k, In k snap -> In k (db_trks tb)) by (intros x Hx; apply Hsnap; right; exact Hx).
+      destruct (memN (t_penalty k) txs) eqn:Em.
+      + destruct (find_trk (db_trks t) (trk_uuid k)); [|discriminate].
+        assert (HU : touched (trk_uuid k) = true).
+        { apply touched_of; [exact Hk|]. unfold touchable. rewrite Em. reflexivity. }
+        apply IH; [exact Hsnap'|].
+        eapply rinv_frame; [| | | |apply (rinv_status t (trk_uuid k) h true RI HU)]; try reflexivity.
+        cbn [reorged set_reorged]. intros x Hx. apply filter_In in Hx. apply Hx.
+      + destruct (mem_uuid (trk_uuid k) (reorged t)); [apply IH; assumption|].
+        destruct (t_conf k) eqn:Ec; [|apply IH; assumption].
+        unfold u32_sub. destruct (N.leb (t_height k) h); [|discriminate].
+        intros Hl. destruct (IH _ _ _ _ Hsnap' RI Hl) as [RI' Hcomp]. split; [exact RI'|].
+        intros u Hu. destruct (Hcomp u Hu) as [H1|H1]; [|right; exact H1].
+        destruct (N.eqb (h - t_height k) (Z.to_N Consts.IRREVOCABLY_RESOLVED)) eqn:E100; [|left; exact H1].
+        apply in_app_or in H1. destruct H1 as [H1|[<-|[]]]; [left; exact H1|right].
+        apply touched_of; [exact Hk|]. unfold touchable. rewrite Ec, E100. cbn. rewrite orb_true_r. reflexivity.
+  Qed.
+
+  Lemma reorged_loop_spec sc us : forall t rej rej' t',
+    (forall u, In u us -> In u (reorged tb)) -> RInv t ->
+    reorged_loop sc h us t rej = Ok rej' t' ->
+    RInv t' /\ (forall u, In u rej' -> In u rej \/ touched u = true).
+  Proof.
+    induction us as [|uuid us IH]; intros t rej rej' t' Hus RI; cbn [reorged_loop].
+    - intros H. injection H as <- <-. split; [exact RI|intros u Hu; left; exact Hu].
+    - assert (Hus' : forall u, In u us -> In u (reorged tb)) by (intros x Hx; apply Hus; right; exact Hx).
+      destruct (find_trk (db_trks t) uuid) as [k|] eqn:Ef; [|apply IH; assumption].
+      apply find_trk_Some in Ef. destruct Ef as [Hik Huk].
+      destruct (rinv_origin t k RI Hik) as [k0 [Hk0 Hid]]. apply trk_id_inj in Hid. destruct Hid as [Hu0 [Hd0 Hp0]].
+      assert (HR : In (trk_uuid k0) (reorged tb)) by (rewrite Hu0, Huk; apply Hus; left; reflexivity).
+      assert (HU : touched uuid = true).
+      { rewrite <- Huk, <- Hu0. apply touched_of; [exact Hk0|]. unfold touchable.
+        apply mem_uuid_In in HR. rewrite HR. rewrite orb_true_r. reflexivity. }
+      assert (Hrej : forall rej0 t0, RInv t0 -> reorged_loop sc h us t0 (rej0 ++ [uuid]) = Ok rej' t' ->
+                       RInv t' /\ (forall u, In u rej' -> In u rej0 \/ touched u = true)).
+      { intros rej0 t0 RI0 Hl. destruct (IH _ _ _ _ Hus' RI0 Hl) as [RI' Hr]. split; [exact RI'|].
+        intros u Hu. destruct (Hr u Hu) as [H1|H1]; [|right; exact H1].
+        apply in_app_or in H1. destruct H1 as [H1|[<-|[]]]; [left; exact H1|right; exact HU]. }
+      destruct (send_transaction sc t (t_dispute k)) as [s t1] eqn:Es1.
+      assert (RI1 : RInv t1).
+      { apply (rinv_send sc t (t_dispute k) s t1 RI); [|exact Es1]. exists k0. split; [exact Hk0|]. right. split; [congruence|exact HR]. }
+      assert (Hpen : forall s2 t2, send_transaction sc t1 (t_penalty k) = (s2, t2) -> RInv t2).
+      { intros s2 t2 Es2. apply (rinv_send sc t1 (t_penalty k) s2 t2 RI1); [|exact Es2]. exists k0. split; [exact Hk0|]. left. congruence. }
+      destruct s as [hh|hh| |c]; [discriminate| | |apply Hrej; exact RI1].
+      + destruct (send_transaction sc t1 (t_penalty k)) as [s2 t2] eqn:Es2. specialize (Hpen s2 t2 eq_refl).
+        destruct (status_rejected s2); [apply Hrej; exact Hpen|].
+        apply IH; [exact Hus'|]. apply rinv_status; assumption.
+      + destruct (send_transaction sc t1 (t_penalty k)) as [s2 t2] eqn:Es2. specialize (Hpen s2 t2 eq_refl).
+        destruct (status_rejected s2); [apply Hrej; exact Hpen|].
+        apply IH; [exact Hus'|]. apply rinv_status; assumption.
+  Qed.
+
+  Lemma stale_loop_spec sc us : forall t rej rej' t',
+    (forall u, In u us -> touched u = true) -> RInv t ->
+    stale_loop sc h us t rej = Ok rej' t' ->
+    RInv t' /\ (forall u, In u rej' -> In u rej \/ touched u = true).
+  Proof.
+    induction us as [|uuid us IH]; intros t rej rej' t' Hus RI; cbn [stale_loop].
+    - intros H. injection H as <- <-. split; [exact RI|intros u Hu; left; exact Hu].
+    - assert (Hus' : forall u, In u us -> touched u = true) by (intros x Hx; apply Hus; right; exact Hx).
+      assert (HU : touched uuid = true) by (apply Hus; left; reflexivity).
+      destruct (find_trk (db_trks t) uuid) as [k|] eqn:Ef; [|discriminate].
+      apply find_trk_Some in Ef. destruct Ef as [Hik Huk].
+      destruct (rinv_origin t k RI Hik) as [k0 [Hk0 Hid]]. apply trk_id_inj in Hid. destruct Hid as [Hu0 [Hd0 Hp0]].
+      destruct (send_transaction sc t (t_penalty k)) as [s t1] eqn:Es1.
+      assert (RI1 : RInv t1).
+      { apply (rinv_send sc t (t_penalty k) s t1 RI); [|exact Es1]. exists k0. split; [exact Hk0|]. left. congruence. }
+      destruct s as [hh|hh| |c]; try (apply IH; [exact Hus'|apply rinv_status; assumption]).
+      intros Hl. destruct (IH _ _ _ _ Hus' RI1 Hl) as [RI' Hr]. split; [exact RI'|].
+      intros u Hu. destruct (Hr u Hu) as [H1|H1]; [|right; exact H1].
+      apply in_app_or in H1. destruct H1 as [H1|[<-|[]]]; [left; exact H1|right; exact HU].
+  Qed.
+
+  Lemma r_block_tail sc rej1 t4 t' :
+    RInv t4 -> (forall u, In u rej1 -> touched u = true) ->
+    match u32_sub h (Z.to_N Consts.CONFIRMATIONS_BEFORE_RETRY) with
+    | None => Abort S_r_stale_underflow t4
+    | Some lim =>
+        let stale := map trk_uuid (filter (fun k => negb (t_conf k) && N.leb (t_height k) lim) (db_trks t4)) in
+        do rej2, t5 <- stale_loop sc h stale t4 [];
+        do _, t6 <- (match rej1 ++ rej2 with [] => Ok tt t5 | l => gk_delete_appointments t5 l false end);
+        Ok tt (set_car_memo t6 [])
+    end = Ok tt t' -> RInv t'.
+  Proof.
+    intros RI4 Hrej1.
+    unfold u32_sub. destruct (N.leb (Z.to_N Consts.CONFIRMATIONS_BEFORE_RETRY) h); [|discriminate].
+    cbv zeta.
+    set (stale := map trk_uuid (filter (fun k => negb (t_conf k) && N.leb (t_height k) (h - Z.to_N Consts.CONFIRMATIONS_BEFORE_RETRY)) (db_trks t4))).
+    assert (Hstale : forall u, In u stale -> touched u = true).
+    { intros u Hu. apply in_map_iff in Hu. destruct Hu as [k [<- Hk]]. apply filter_In in Hk. destruct Hk as [Hk Hcond].
+      destruct (touched (trk_uuid k)) eqn:E; [reflexivity|].
+      apply (ri_trks_out t4 RI4 k E) in Hk. rewrite <- E. apply touched_of; [exact Hk|].
+      unfold touchable. rewrite Hcond. apply orb_true_r. }
+    destruct (stale_loop sc h stale t4 []) as [rej2 t5|] eqn:Es; cbn [bind]; [|discriminate].
+    destruct (stale_loop_spec sc stale t4 [] rej2 t5 Hstale RI4 Es) as [RI5 Hrej2].
+    assert (Hrej : forall u, In u (rej1 ++ rej2) -> touched u = true).
+    { intros u Hu. apply in_app_or in Hu. destruct Hu as [Hu|Hu]; [apply Hrej1; exact Hu|].
+      destruct (Hrej2 u Hu) as [[]|H]. exact H. }
+    destruct (rej1 ++ rej2) as [|r0 rs] eqn:Erej; cbn [bind].
+    - intros H. injection H as <-. apply (rinv_frame t5 _); try reflexivity; [apply incl_refl|exact RI5].
+    - destruct (gk_delete_appointments t5 (r0 :: rs) false) as [[] t6|] eqn:Ed2; cbn [bind]; [|discriminate].
+      intros H. injection H as <-. apply (rinv_frame t6 _); try reflexivity; [apply incl_refl|].
+      eapply rinv_gk_delete; eassumption.
+  Qed.
+
+  Lemma r_block_connected_rinv le sc b t' :
+    keys_of (ib_data b) = txs ->
+    r_block_connected le sc tb b h = Ok tt t' -> RInv t'.
+  Proof.
+    intros Hkeys. unfold r_block_connected. rewrite Hkeys.
+    destruct (ti_update (r_index (set_car_height tb h)) b) as [idx|]; [|discriminate].
+    set (t1 := set_r_index (set_car_height tb h) idx).
+    assert (RI1 : RInv t1) by (apply (rinv_frame tb t1); try reflexivity; [apply incl_refl|apply rinv_base]).
+    destruct (check_conf_loop le txs h (db_trks t1) t1 []) as [comp t2|] eqn:Ec; cbn [bind]; [|discriminate].
+    destruct (check_conf_spec le (db_trks t1) t1 [] comp t2 (fun k Hk => Hk) RI1 Ec) as [RI2 Hcomp].
+    assert (Hcomp' : forall u, In u comp -> touched u = true).
+    { intros u Hu. destruct (Hcomp u Hu) as [[]|H]. exact H. }
+    destruct (match comp with [] => Ok tt t2 | _ :: _ => gk_delete_appointments t2 comp true end) as [[] t3|] eqn:Ed1;
+      cbn [bind]; [|discriminate].
+    assert (RI3 : RInv t3).
+    { destruct comp; [injection Ed1 as <-; exact RI2|]. eapply rinv_gk_delete; eassumption. }
+    destruct (reorged t3) as [|r0 rs] eqn:Ere; cbn [bind].
+    - apply r_block_tail; [exact RI3|intros u []].
+    - destruct (reorged_loop sc h (r0 :: rs) (set_reorged t3 []) []) as [rej1 t4|] eqn:Er; cbn [bind]; [|discriminate].
+      assert (RI3' : RInv (set_reorged t3 [])).
+      { apply (rinv_frame t3 _); try reflexivity; [intros x []|exact RI3]. }
+      assert (Hus : forall u, In u (r0 :: rs) -> In u (reorged tb)).
+      { rewrite <- Ere. apply (ri_reorged t3 RI3). }
+      destruct (reorged_loop_spec sc (r0 :: rs) _ [] rej1 t4 Hus RI3' Er) as [RI4 Hr].
+      apply r_block_tail; [exact RI4|].
+      intros u Hu. destruct (Hr u Hu) as [[]|H]. exact H.
+  Qed.
+End Responder.
